@@ -312,6 +312,30 @@ Proof.
   inversion H; subst L s; clear H.
   exists f1, v, sl, L1. repeat split; assumption.
 Qed.
+(* the two operands of an operator when the right one is an expression without calls: the left one is evaluated first *)
+Lemma operands_left_halt f ge l r st c s : pure r = true ->
+  operands (evals f ge) [l; r] st = Halt c s -> exists f1, f = S f1 /\ eval f1 ge l (set_cur st eff0) = Halt c s.
+Proof.
+  intros Hp H. unfold operands in H. apply bind_halt in H. destruct H as [H|(L & s1 & _ & H)]; [|destruct (conflicts (map snd L)); discriminate].
+  destruct f as [|f1]; [discriminate|]. exists f1. split; [reflexivity|]. cbn [evals evals_body] in H.
+  apply rcase_halt in H. destruct H as [([v ef] & s1 & H1 & H)|(c0 & s0 & H1 & H)].
+  - exfalso. apply rcase_halt in H. destruct H as [(L & s2 & _ & H)|(c1 & s2 & H2 & _)]; [discriminate|].
+    refine (evals_no_halt ge [r] _ f1 s1 c1 s2 H2). intros e0 [<-|[]]. exact (pure_no_halt ge r Hp).
+  - unfold with_eff in H1. apply rcase_halt in H1. destruct H1 as [(a0 & s2 & _ & H1)|(c1 & s2 & H1 & H1')]; [discriminate|].
+    inversion H1'; subst c0 s0. destruct (forallb harmless [r]); [|discriminate]. inversion H; subst. exact H1.
+Qed.
+Lemma operands_left_ret f ge l r st vs s : operands (evals f ge) [l; r] st = Ret vs s ->
+  exists f1 vl sl f2 vr st2 sr, f = S f1 /\ eval f1 ge l (set_cur st eff0) = Ret vl sl /\
+    same_store sl st2 /\ eval f2 ge r st2 = Ret vr sr /\ same_store sr s /\ vs = [vl; vr].
+Proof.
+  intros H. apply operands_ret in H. destruct H as (L & H & ->).
+  destruct (evals_cons _ _ _ _ _ _ _ H) as (f1 & vl & sl & L' & -> & El & Er & ->).
+  destruct (evals_one _ _ _ _ _ _ Er) as (f2 & vr & st2 & sr & S0 & E2 & HL & S1).
+  exists f1, vl, sl, f2, vr, st2, sr. split; [reflexivity|]. split; [exact El|].
+  split; [eapply same_store_trans; [apply same_store_set_cur | exact S0]|]. split; [exact E2|]. split; [exact S1|].
+  cbn [map fst]. rewrite HL. reflexivity.
+Qed.
+
 Lemma evals_nil f ge st L s : evals f ge [] st = Ret L s -> L = [] /\ s = st.
 Proof. destruct f; [discriminate|]. cbn [evals evals_body]. intros H. inversion H. split; reflexivity. Qed.
 Lemma same_store_sym a b : same_store a b -> same_store b a.
